@@ -38,6 +38,10 @@ enum Behaviour {
     Ack,
     /// handler just keeps receiving (acknowledgements are the transport's business)
     Sink,
+    /// handler acknowledges explicitly, then sends a reliable reply; the client pipelines its
+    /// messages without waiting for the replies (C15: acknowledgement state changes between a
+    /// reply and its retransmission)
+    AckThenReply,
 }
 
 /// The adversary's default policy (cost 0); deviations from it cost 1 each.
@@ -96,6 +100,12 @@ impl ExchangeHandler for Handler {
                 }
                 Behaviour::Ack => exchange.acknowledge().await?,
                 Behaviour::Sink => {}
+                Behaviour::AckThenReply => {
+                    exchange.acknowledge().await?;
+                    let mut reply = p.clone();
+                    reply.truncate(4);
+                    exchange.send(MessageMeta::new(PROTO, 2, true), &reply).await?;
+                }
             }
         }
     }
@@ -168,6 +178,13 @@ fn build(cfg: &Cfg) -> World {
                     }
                     if cfg2.behaviour == Behaviour::Echo {
                         // the last reply requested an acknowledgement
+                        let _ = ex.acknowledge().await;
+                    }
+                    if cfg2.behaviour == Behaviour::AckThenReply {
+                        for _ in 0..cfg2.messages {
+                            let rx = ex.recv().await?;
+                            obs2.borrow_mut().replies.push((rx.payload().to_vec(), vclock::now()));
+                        }
                         let _ = ex.acknowledge().await;
                     }
                     Ok(())
@@ -245,6 +262,56 @@ fn msg_of_len(len: usize, base: usize) -> Option<usize> {
     }
 }
 
+thread_local! {
+    static NONCE_ORACLE: std::cell::Cell<bool> = const { std::cell::Cell::new(false) };
+    static WIRE_DUMP: RefCell<Vec<String>> = const { RefCell::new(Vec::new()) };
+}
+
+/// C15 oracle over the wire log of one execution.
+fn judge_nonce(cfg: &Cfg, w: &World, v: &mut Vec<(String, String)>) {
+    let net = w.net.0.borrow();
+    let kind = format!("{:?}-{:?}", cfg.kind, cfg.behaviour);
+    let mut by_key: std::collections::BTreeMap<(usize, u16, u32), &crate::common::sim::Dgram> = Default::default();
+    let mut last_first: std::collections::BTreeMap<(usize, u16), u32> = Default::default();
+    for d in net.log.iter() {
+        if d.bytes.len() < 8 {
+            continue;
+        }
+        let sess = u16::from_le_bytes([d.bytes[1], d.bytes[2]]);
+        let ctr = u32::from_le_bytes([d.bytes[4], d.bytes[5], d.bytes[6], d.bytes[7]]);
+        if sess == 0 {
+            continue; // unsecured
+        }
+        match by_key.get(&(d.from, sess, ctr)) {
+            Some(first) => {
+                if first.bytes != d.bytes {
+                    let pos = first.bytes.iter().zip(d.bytes.iter()).position(|(a, b)| a != b);
+                    v.push((
+                        format!("C15:{}:same-counter-different-bytes", kind),
+                        format!("node {} sent counter {} on session {} twice with different bytes (lengths {} / {}, first difference at byte {:?}): a retransmission is not identical to the original, the nonce is reused for a different message", d.from, ctr, sess, first.bytes.len(), d.bytes.len(), pos),
+                    ));
+                }
+            }
+            None => {
+                by_key.insert((d.from, sess, ctr), d);
+                if let Some(prev) = last_first.get(&(d.from, sess)) {
+                    if ctr <= *prev {
+                        // who overtook it? (first transmissions with a higher counter that are already on the wire)
+                        let min_len = net.log.iter().filter(|x| x.from == d.from).map(|x| x.bytes.len()).min().unwrap_or(0);
+                        let overtakers: Vec<usize> = by_key.iter().filter(|((f, s2, c), _)| *f == d.from && *s2 == sess && *c > ctr).map(|(_, x)| x.bytes.len()).collect();
+                        let class = if overtakers.iter().all(|l| *l == min_len) { "overtaken-by-immediately-sent-standalone-acks" } else { "other" };
+                        v.push((format!("C15:{}:counter-not-increasing:{}", kind, class), format!("node {} session {}: new message with counter {} first appears on the wire after counter {} ({} datagrams with higher counters went out before it)", d.from, sess, ctr, prev, overtakers.len())));
+                    }
+                }
+                let e = last_first.entry((d.from, sess)).or_insert(ctr);
+                if ctr > *e {
+                    *e = ctr;
+                }
+            }
+        }
+    }
+}
+
 fn run_one(cfg: &Cfg, prefix: &[usize]) -> Result<Outcome<RunResult>, String> {
     let mut w = build(cfg);
     let mut fates = Fates::default();
@@ -316,7 +383,22 @@ fn run_one(cfg: &Cfg, prefix: &[usize]) -> Result<Outcome<RunResult>, String> {
     if step < prefix.len() {
         return Err(format!("replay divergence: execution ended after {} of {} choices", step, prefix.len()));
     }
-    Ok(judge(cfg, &w, &fates, trace))
+    if std::env::var_os("MC_SHOW_PANICS").is_some() {
+        WIRE_DUMP.with(|d| {
+            let mut d = d.borrow_mut();
+            d.clear();
+            for g in w.net.0.borrow().log.iter() {
+                let fate = if fates.dropped.contains(&g.id) { "dropped".to_string() } else { format!("delivered x{}", fates.delivered.iter().filter(|(id, _)| *id == g.id).count()) };
+                d.push(format!("t={:>9}us #{:<3} {}->{} len {:>3} sess {:>5} ctr {:>10} {} [{}]", g.sent_at_us - 5_000_000_000, g.id, g.from, g.to, g.bytes.len(), u16::from_le_bytes([g.bytes[1], g.bytes[2]]), u32::from_le_bytes([g.bytes[4], g.bytes[5], g.bytes[6], g.bytes[7]]), crate::common::hex(&g.bytes[8..g.bytes.len().min(24)]), fate));
+            }
+        });
+    }
+    let mut out = judge(cfg, &w, &fates, trace);
+    if NONCE_ORACLE.with(|n| n.get()) {
+        out.result.violations.clear();
+        judge_nonce(cfg, &w, &mut out.result.violations);
+    }
+    Ok(out)
 }
 
 fn judge(cfg: &Cfg, w: &World, fates: &Fates, trace: e1::Trace) -> Outcome<RunResult> {
@@ -469,6 +551,7 @@ fn cfg_from(v: &Value) -> Cfg {
         behaviour: match v["behaviour"].as_str() {
             Some("Echo") => Behaviour::Echo,
             Some("Sink") => Behaviour::Sink,
+            Some("AckThenReply") => Behaviour::AckThenReply,
             _ => Behaviour::Ack,
         },
         messages: v["messages"].as_u64().unwrap_or(2) as usize,
@@ -493,6 +576,11 @@ fn replay(ctx: &Ctx, path: &std::path::Path) -> i32 {
         }
         Ok(out) => {
             println!("outcome: {}  retransmissions {}  duplicate deliveries {}", out.result.outcome_class, out.result.retransmissions, out.result.dup_deliveries);
+            WIRE_DUMP.with(|d| {
+                for l in d.borrow().iter() {
+                    println!("  {}", l);
+                }
+            });
             for (sig, what) in out.result.violations {
                 println!("  {} {}", sig, what);
                 report.violation(sig, what, r.clone());
@@ -503,6 +591,10 @@ fn replay(ctx: &Ctx, path: &std::path::Path) -> i32 {
 }
 
 pub fn run(ctx: &Ctx) -> i32 {
+    let nonce = ctx.prop == "C15";
+    // the oracle switch is read inside worker threads: set it on every rayon thread and here
+    rayon::broadcast(|_| NONCE_ORACLE.with(|n| n.set(nonce)));
+    NONCE_ORACLE.with(|n| n.set(nonce));
     if let Some(p) = &ctx.replay {
         return replay(ctx, p);
     }
@@ -519,7 +611,18 @@ pub fn run(ctx: &Ctx) -> i32 {
     let (mut execs, mut points, mut outcomes, mut retx, mut dups, mut detchk) = (0u64, 0u64, 0usize, 0u64, 0u64, 0u64);
     let mut capped = false;
     let mut classes = std::collections::BTreeSet::new();
-    for cfg in cfgs(ctx.tier) {
+    let mut all_cfgs = cfgs(ctx.tier);
+    if nonce {
+        // pipelined client against an acknowledge-then-reply handler, under every loss policy
+        let ns: &[usize] = if ctx.tier == Tier::Quick { &[1, 2] } else { &[1, 2, 3, 4] };
+        all_cfgs.push(Cfg { kind: SessKind::Case, behaviour: Behaviour::AckThenReply, messages: 2, strategy: Strategy::Fifo });
+        for from in [0usize, 1] {
+            for &n in ns {
+                all_cfgs.push(Cfg { kind: SessKind::Case, behaviour: Behaviour::AckThenReply, messages: 2, strategy: Strategy::DropFirst { from, n } });
+            }
+        }
+    }
+    for cfg in all_cfgs {
         let viol = std::sync::Mutex::new(Vec::new());
         let agg = std::sync::Mutex::new((0u64, 0u64, std::collections::BTreeSet::new()));
         let stats = e1::explore(
@@ -590,6 +693,10 @@ pub fn run(ctx: &Ctx) -> i32 {
     ev.assume("datagram latency >= 1 ms; the adversary acts only at quiescent points (no datagram is in the middle of being processed)");
     ev.assume("messages are attributed to datagrams by size class and plain-header counter (payload sizes are 16 bytes apart)");
     ev.assume("two reliable messages per exchange, one exchange, one session per execution");
+    if nonce {
+        ev.coverage.remove("rule");
+        ev.set("rule", json!(format!("the wire log of every execution (every schedule with at most {} non-default adversary decisions, all C09 configurations plus a pipelining client against an acknowledge-then-reply handler) is checked: datagrams with equal (sender, session id, message counter) must be byte-identical, and the first transmissions of a sender on a session must carry strictly increasing counters", bound)));
+    }
     if classes.len() < 2 || retx == 0 {
         eprintln!("MACHINERY: vacuous C09 run (classes {:?}, retransmissions {})", classes, retx);
         return 2;
